@@ -311,6 +311,12 @@ func runC17(r *ev.Run) {
 		}
 		defer os.RemoveAll(dir)
 		rep := func(sig, what string) { r.ViolationAt("race", ci, sig, what, nil) }
+		if ci%2 == 1 {
+			// the directory does not exist yet: every racing Open may find it missing and create it; still one owner only,
+			// and what the winner owns (its LOCK, the directory itself) survives the losers' error paths
+			dir = filepath.Join(dir, "not", "yet", "there")
+			r.Count("races:concurrent-open-of-a-directory-that-does-not-exist-yet", 1)
+		}
 		// N goroutines race to open
 		N := 2 + rng.IntN(7)
 		var wg sync.WaitGroup
@@ -341,6 +347,13 @@ func runC17(r *ev.Run) {
 		}
 		r.Count("races:concurrent-open", 1)
 		s := winners[0]
+		if _, err := os.Stat(filepath.Join(dir, "LOCK")); err != nil {
+			rep("own.lock-missing-while-owned", fmt.Sprintf("%d Opens raced, one won, but its LOCK is not in the directory: %v", N, err))
+		}
+		if late, err := p.open(dir); err == nil {
+			rep("own.second-open-succeeds", fmt.Sprintf("%d Opens raced and one won; an Open issued after the race succeeded as well (two owners)", N))
+			late.Close()
+		}
 		// operations racing with Close
 		ids := newIDGen(rng)
 		ids.min = 1 << 24
